@@ -98,6 +98,7 @@ class Interp:
         self.spec_env_extra = {}
         self.hyp = []
         self.ext_returns = []
+        self.dmap_keys = {}        # Ref -> key terms used on this path (for model concretisation)
 
     # ================================================================ fresh
     def fresh(self, shape, name):
@@ -650,7 +651,9 @@ class Interp:
             c = self.container(cont.ref)
             if isinstance(c, DConc):
                 return z3.Or([self.eq(item, self.const(k)) for k, _ in c.entries] + [z3.BoolVal(False)])
-            return z3.Select(c.dom, to_term(self.force(item), c.kshape))
+            kt = to_term(self.force(item), c.kshape)
+            self.dmap_keys.setdefault(cont.ref, []).append(kt)
+            return z3.Select(c.dom, kt)
         if cont.tag == "obj" and cont.ref.kind == "rec":
             item = self.force(item)
             if item.tag == "str" and z3.is_string_value(item.t):
@@ -1050,6 +1053,7 @@ class Interp:
                     self.raise_("KeyError", idx)
                 return v
             kt = to_term(idx, c.kshape)
+            self.dmap_keys.setdefault(base.ref, []).append(kt)
             if self.ctx.branch(z3.Not(z3.Select(c.dom, kt))):
                 self.raise_("KeyError", idx)
             return from_term(z3.Select(c.arr, kt), c.vshape)
@@ -1453,7 +1457,19 @@ class Interp:
         site = "call:%s" % fc.key
         # 1. preconditions are obligations of the caller
         self.frames.append(Frame(fc, dict(env)))
+        cinv = []
+        if fc.verified and not fc.no_inv and recv is not None and getattr(recv, "tag", None) == "obj" \
+                and not self.spec_depth and "." in fc.key:
+            from .verify import class_invariants
+            cinv = class_invariants(self.cset, fc.key.split(".")[0])
         try:
+            for d in fc.defs:
+                self.ctx.assume(self.spec_bool(d))
+            for label, clause in cinv:
+                f = self.spec_bool(clause)
+                self.ctx.prove("%s:%s@%s" % (self.frames[0].fc.key if self.frames[0].fc else "?", label, site),
+                               _ctext(clause), f, info={"kind": "call-invariant", "callee": fc.key,
+                                                        "line": getattr(node, "lineno", None)})
             for label, clause in fc.requires:
                 f = self.spec_bool(clause)
                 if self.spec_depth:
@@ -1493,6 +1509,8 @@ class Interp:
                         if fc.emits:
                             fc.emits(self, env, res)
                         for label, clause in fc.ensures:
+                            self.ctx.assume(self.spec_bool(clause))
+                        for label, clause in cinv:
                             self.ctx.assume(self.spec_bool(clause))
                         return res
                     exc = outcomes[i]
@@ -1884,8 +1902,12 @@ class Interp:
         def assume_inv():
             if extra_inv is not None:
                 self.ctx.assume(extra_inv())
+            for d in spec.assume:
+                self.ctx.assume(self.spec_bool(d))
             for inv in spec.invariant:
                 self.ctx.assume(self.spec_bool(inv))
+        for d in spec.assume:
+            self.ctx.assume(self.spec_bool(d))
         check_inv("init")
         # havoc
         assigned = _assigned_names(s.body) | set(extra_havoc)
@@ -1912,6 +1934,8 @@ class Interp:
                 return
             if post_body:
                 post_body()
+            for d in spec.assume:
+                self.ctx.assume(self.spec_bool(d))
             check_inv("preserved")
             if dec0 is not None:
                 dec1 = self.spec_val(spec.decreases)
